@@ -44,7 +44,7 @@ reg(
     H("c17_change_cursor_bounds", "vecdb", "C17", mem=6, timeout=600, memsafe=True, also=("C16",),
       desc="ChangeCursor::{skip,read_values}: symbolic 64-bit counts and element sizes never overflow or read past the input (checked_mul / checked_add guard every read)",
       bounds="input 0..16 arbitrary bytes; count any usize; element size in {4,8,16,usize::MAX/2}", functions=["vecdb::ChangeCursor::{skip,read_values,check_remaining}"], stubs=[FMT, WCAP0]),
-    H("c16_parse_change_data_any_bytes", "vecdb", "C17", mem=44, timeout=3000, tier="thorough", also=("C16", "C13"),
+    H("c16_parse_change_data_any_bytes", "vecdb", "C17", mem=44, timeout=3000, tier="extended", also=("C16", "C13"),
       desc="parse_change_data on an arbitrary byte string: Err(WrongLength|Overflow|Underflow) or a ChangeData whose vectors fit inside the input and echo its fields; no panic, allocation bounded by the input",
       bounds="record = 0..56 arbitrary bytes (truncation at every offset and arbitrary length fields included); element size 4", functions=["vecdb::ReadWriteBaseVec::parse_change_data", "vecdb::ChangeCursor"], stubs=[FMT, WCAP0]),
 )
@@ -128,11 +128,14 @@ WD = ("one real write step from an arbitrary INV state: placement algebra (new s
       "new_start+offset, old bytes copied iff relocated, copy before write before slot), frame (no other region's extent or "
       "metadata touched), INV re-established pointwise, best-fit reuse, slot written with final values; refused write "
       "(offset beyond end / growth failure) has no effect")
-for (n, q) in [("c01_write_x1h4r1", set()), ("c01_write_x1p1", set()), ("c01_write_r1x1", set()),
-               ("c01_write_x1h1r1", set()), ("c01_write_x1r1h2r1h4", set()), ("c01_write_x1r1h2", set()),
-               ("c01_write_x2r1", set()), ("c01_write_h1x1r1", set()), ("c01_write_x1h2p1", set())]:
-    reg(H(n, "rawdb", "C01", mem=40, timeout=3000, desc=WD, bounds=L2B, functions=L2F, stubs=[FMT, SBG, SLOT],
-          also=("C02", "C05", "C13"), quick_for=q))
+# Write shapes: each takes ~20 min and 35-40 GB on this box, so only the shapes that were run to completion here
+# are in the thorough tier (and only the listed ones count for the other properties they also decide); the rest
+# are "extended" (bin/check C01 --tier extended), same oracle, not referenced by MANIFEST.
+for (n, t, also) in [("c01_write_x1h4r1", "thorough", ("C02",)), ("c01_write_x1p1", "thorough", ("C05",)),
+                     ("c01_write_r1x1", "thorough", ("C13",)),
+                     ("c01_write_x1h1r1", "extended", ()), ("c01_write_x1r1h2r1h4", "extended", ()), ("c01_write_x1r1h2", "extended", ()),
+                     ("c01_write_x2r1", "extended", ()), ("c01_write_h1x1r1", "extended", ()), ("c01_write_x1h2p1", "extended", ())]:
+    reg(H(n, "rawdb", "C01", mem=40, timeout=3000, tier=t, desc=WD, bounds=L2B, functions=L2F, stubs=[FMT, SBG, SLOT], also=also))
 
 L2M = ("database world of concrete shape and extent sizes (2-3 extents); symbolic region content lengths, metadata states, "
        "dirty bounds, file length, operation arguments; ghost-mode files")
@@ -180,7 +183,7 @@ reg(
       bounds=L2M + " [R2 H1 R1 P1]; pread samples symbolic", functions=["rawdb::Database::{compact,flush,punch_holes,approx_has_punchable_data}", "rawdb::HolePunch::punch"], stubs=[FMT, SBG, PROM]),
 )
 for (n, q) in [("c02_create_r1h2r1h1", False), ("c02_create_r1p1", False), ("c02_create_r1r1", False)]:
-    reg(H(n, "rawdb", "C02", mem=30, timeout=2400, tier="thorough", also=("C01",),
+    reg(H(n, "rawdb", "C02", mem=30, timeout=2400, tier="extended", also=("C01",),
           desc="Database::create_region_if_needed: a new region is placed at the start of a smallest promoted hole if one exists (pending holes are not reused), else at the end with the file grown first; registered under its name in the first free slot; existing name returns the existing region with no effect; growth failure has no effect; INV pointwise",
           bounds=L2M + "; name existing/new, growth failure symbolic", functions=["rawdb::Database::{create_region_if_needed,set_min_len}", "rawdb::Regions::create", "rawdb::Layout::{find_smallest_adequate_hole,remove_or_compress_hole,insert_region}"], stubs=[FMT, SBG, SLOT, TOVEC]))
 
@@ -237,7 +240,7 @@ reg(
     H("c03_raw_edit_step", "vecdb", "C03", mem=12, timeout=1500, also=("C13",),
       desc="one editing step (truncate_if_needed_at / update_at / delete_at / push) from an arbitrary valid overlay state equals the reference model pointwise; refused update (index beyond the length) has no effect; stamp unchanged; a slot is never both deleted and updated",
       bounds=CMB, functions=["vecdb::ReadWriteRawVec::{truncate_if_needed_at,truncate_dirty_at,update_at,delete_at,push}", "vecdb::ReadWriteBaseVec::truncate_pushed"], stubs=CMS),
-    H("c03_raw_write_step", "vecdb", "C03", mem=30, timeout=2400, tier="thorough", also=("C09",),
+    H("c03_raw_write_step", "vecdb", "C03", mem=30, timeout=2400, tier="extended", also=("C09",),
       desc="write() from an arbitrary valid state without deleted slots: afterwards every element is on disk at HEADER_OFFSET + 4*i (file bytes compared), region length = header + 4*len, pushed/updated empty, published stored_len = len, reads unchanged",
       bounds=CMB + "; no deleted slots (holes region needs the allocator)", functions=["vecdb::ReadWriteRawVec::write", "rawdb::Region::{truncate_write,truncate,batch_write_each}", "rawdb::write_to_mmap (bounded real copy)"], stubs=CMS),
     H("c20_raw_rw_reads_expanded", "vecdb", "C20", mem=10, timeout=1200, memsafe=True,
@@ -344,6 +347,8 @@ def select(prop, tier, seed=0):
                     continue
             elif h.tier != "quick":
                 continue
+        elif tier == "thorough" and h.tier == "extended":
+            continue
         out.append(h)
     return out
 
